@@ -68,13 +68,13 @@ fn is_ready(st: &str) -> bool {
 }
 
 /// Runs a program of controller calls against `bus` (sign 0 is the one under control), emitting call/ret events.
-fn run_program(out: &mut TraceOut, rng: &mut StdRng, bus: Rc<RefCell<VirtualSignBus<'static>>>, addr: u16, typ: SignType, typ2: SignType) {
+fn run_program(out: &mut TraceOut, rng: &mut StdRng, bus: Rc<RefCell<VirtualSignBus<'static>>>, idx: usize, addr: u16, typ: SignType, typ2: SignType) {
     let emit_call = |out: &mut TraceOut, name: &str, t: SignType, pages: &[Page<'static>]| {
         let (w, h) = t.dimensions();
         out.emit(json!({"e": "call", "name": name, "typ": format!("{:?}", t), "w": w, "h": h,
                         "items": pages.iter().map(|p| j::bytes(p.as_bytes())).collect::<Vec<_>>()}));
     };
-    let observe = |bus: &Rc<RefCell<VirtualSignBus<'static>>>| obs(bus.borrow().sign(0));
+    let observe = |bus: &Rc<RefCell<VirtualSignBus<'static>>>| obs(bus.borrow().sign(idx));
     let do_call = |out: &mut TraceOut, sign: &Sign, name: &str, t: SignType, pages: &[Page<'static>]| -> String {
         emit_call(out, name, t, pages);
         let o = run_call(sign, name, pages);
@@ -157,15 +157,39 @@ pub fn record_c08(a: &Args) -> usize {
             }
             priors += 1;
             out.emit(json!({"e": "prior", "addr": addr, "flip": flip_name(flip), "obs": obs(&s), "path_len": v["path"].as_array().unwrap().len()}));
-            // a bystander sign on the same bus must not matter
+            // a bystander sign on the same bus must not matter: fresh, or itself left in some state by earlier traffic
+            // (abandoned in the middle of a transfer, say), behind or in front of the sign under control
             let mut signs = vec![s];
+            let mut idx = 0usize;
             if n % 3 == 0 {
-                signs.push(VirtualSign::new(Address(other), PageFlipStyle::Manual));
+                let mut by = VirtualSign::new(Address(other), PageFlipStyle::Manual);
+                if n % 2 == 1 {
+                    let pre: Vec<Message<'static>> = match (n / 6) % 4 {
+                        0 => vec![Message::RequestOperation(Address(other), flipdot_core::Operation::ReceiveConfig)],
+                        1 => vec![Message::RequestOperation(Address(other), flipdot_core::Operation::ReceiveConfig),
+                                  Message::SendData(flipdot_core::Offset(0), flipdot_core::Data::try_new(ALL_TYPES[n % 11].to_bytes().to_vec()).unwrap()),
+                                  Message::DataChunksSent(flipdot_core::ChunkCount(1)), Message::RequestOperation(Address(other), flipdot_core::Operation::ReceivePixels)],
+                        2 => vec![Message::RequestOperation(Address(other), flipdot_core::Operation::ReceiveConfig),
+                                  Message::SendData(flipdot_core::Offset(0), flipdot_core::Data::try_new(ALL_TYPES[(n + 3) % 11].to_bytes().to_vec()).unwrap()),
+                                  Message::DataChunksSent(flipdot_core::ChunkCount(1)), Message::RequestOperation(Address(other), flipdot_core::Operation::ReceivePixels),
+                                  Message::SendData(flipdot_core::Offset(0), flipdot_core::Data::try_new(vec![7u8; 16]).unwrap())],
+                        _ => vec![Message::Hello(Address(other))],
+                    };
+                    for m in &pre {
+                        let _ = catch(std::panic::AssertUnwindSafe(|| by.process_message(m)));
+                    }
+                }
+                if (n / 3) % 2 == 1 {
+                    signs.insert(0, by);
+                    idx = 1;
+                } else {
+                    signs.push(by);
+                }
             }
             let bus = Rc::new(RefCell::new(VirtualSignBus::new(signs)));
             let typ = ALL_TYPES[n % 11];
             let typ2 = ALL_TYPES[(n / 11 + n + 1) % 11];
-            run_program(&mut out, &mut rng, bus, addr, typ, typ2);
+            run_program(&mut out, &mut rng, bus, idx, addr, typ, typ2);
         }
     }
     // prior states from random walks over the wide alphabet (real sizes, half-finished transfers)
@@ -194,7 +218,7 @@ pub fn record_c08(a: &Args) -> usize {
         priors += 1;
         out.emit(json!({"e": "prior", "addr": addr, "flip": flip_name(flip), "obs": obs(&s), "path_len": steps}));
         let bus = Rc::new(RefCell::new(VirtualSignBus::new(vec![s])));
-        run_program(&mut out, &mut rng, bus, addr, ALL_TYPES[w % 11], ALL_TYPES[(w * 7 + 3) % 11]);
+        run_program(&mut out, &mut rng, bus, 0, addr, ALL_TYPES[w % 11], ALL_TYPES[(w * 7 + 3) % 11]);
     }
     // very long lists: chunk totals just below, at and just above 2^16 (every 16-bit counter on the way wraps there), for
     // every sign type; recorded as a digest (number of pages, index of the first page that differs from what was sent)
